@@ -132,7 +132,7 @@ def validate(ctx, module, cfg, lines, label, chunk=3000, count=True, timeout=150
         with open(path, 'w') as f:
             for ln in chunks[ci]:
                 f.write(json.dumps(ln, separators=(',', ':')) + '\n')
-        res = vlib.tlc(ctx, module, cfg, workers=1, env={'TRACE': path}, timeout=timeout, label='%s-%d' % (label, ci), kind='trace',
+        res = vlib.tlc(ctx, module, cfg, workers=1, env={'TRACE': path, 'JAVA_TOOL_OPTIONS': '-Xss32m'}, timeout=timeout, label='%s-%d' % (label, ci), kind='trace',
                        args=['-noGenerateSpecTE'])
         if res.clean:
             return ci, [], {}
